@@ -3,6 +3,7 @@
 -/
 import Nlmodel.Model.Session
 import Nlmodel.Proofs.Lemmas.SimCtlSession
+import Nlmodel.Proofs.Lemmas.SessionConcat
 namespace Nl
 namespace C17
 
@@ -105,10 +106,32 @@ theorem C17_line_refines_semantics (cc : CharClass) (s : Session) (st : Spec.SSt
     parsed, resolved on the carried symbol table, evaluated by the definitional semantics on the
     carried state) gives, the real session — one retained compiler, one retained machine, a fresh
     collector and fresh code per line — gives exactly those values, for every large enough budget -/
-theorem C17_session_refines_semantics (cc : CharClass) (F : Nat) (srcs : List Text) (ts : List Tree)
-    (h : Sim.SpecRun cc F {} {} srcs ts) :
+theorem C17_session_refines_semantics (cc : CharClass) (F : Nat) (srcs : List Text) (asts : List Block) (rbs : List RBlock)
+    (stEnd : Spec.SState) (ts : List Tree) (h : Sim.SpecRun cc F {} {} srcs asts rbs stEnd ts) :
     ∃ n, ∀ k, Session.lines cc (n + k) {} srcs = ts.map (fun t => Obs.value t []) :=
-  Sim.session_lines cc F {} {} srcs ts h {} [] rfl Sim.sinv_start
+  Sim.session_lines cc F {} {} srcs asts rbs stEnd ts h {} [] rfl Sim.sinv_start
+
+/-- A SESSION BEHAVES LIKE ONE GROWING PROGRAM (control-flow fragment): the answer the real session gives
+    to its last line is the value the definitional semantics gives the SINGLE PROGRAM made of all the
+    lines (`SC.joinB asts`: the lines' trees one after the other), whenever the last line ends in an
+    expression statement.  Three results meet here: the session refines the definitional session
+    (`C17_session_refines_semantics`); the definitional session is the single program
+    (`SC.session_is_one_program`: the resolver on the retained table resolves as on the concatenation,
+    `C17_resolve_concat`; a block followed by a block evaluates as one after the other,
+    `SC.evalB_append`; the `last` register is write-only for the evaluator, `SL.all`, so clearing it
+    between lines is unobservable when the last line sets it; the resolver leaves its nesting counters
+    as it found them, `RD.dSs`); and `eval` of that single program gives the same value by
+    `C01_control_flow_program`. -/
+theorem C17_session_is_one_growing_program (cc : CharClass) (F : Nat) (srcs : List Text) (asts : List Block) (rbs : List RBlock)
+    (stEnd : Spec.SState) (ts : List Tree) (h : Sim.SpecRun cc F {} {} srcs asts rbs stEnd ts) (hne : rbs ≠ [])
+    (hexpr : ∀ rb, rbs.getLast? = some rb → SC.endsInExpr rb = true) :
+    ∃ t, (∃ n, ∀ k, (Session.lines cc (n + k) {} srcs).getLast? = some (Obs.value t [])) ∧
+      ∃ rAll F' out, resolveProgram (SC.joinB asts) = .ok rAll ∧ Spec.evalProgram F' rAll = .value t out := by
+  obtain ⟨rAll, F', t, out, h1, h2, h3⟩ := SC.session_is_one_program cc F srcs asts rbs stEnd ts h hne hexpr
+  obtain ⟨n, hn⟩ := C17_session_refines_semantics cc F srcs asts rbs stEnd ts h
+  refine ⟨t, ⟨n, fun k => ?_⟩, rAll, F', out, h1, h2⟩
+  rw [hn k, List.getLast?_map, h3]
+  rfl
 
 /-- non-vacuity: the definitional session of `stel a = 2` / `a = a * 3` / `zolang a < 9 { a = a + 1 }; a + 1`
     (a loop over a variable of an earlier line) exists and has the values null, 6, 10 — so by
@@ -117,10 +140,10 @@ def exLine1 : Text := ['s','t','e','l',' ','a',' ','=',' ','2']
 def exLine2 : Text := ['a',' ','=',' ','a',' ','*',' ','3']
 def exLine3 : Text := ['z','o','l','a','n','g',' ','a',' ','<',' ','9',' ','{',' ','a',' ','=',' ','a',' ','+',' ','1',' ','}',';',' ','a',' ','+',' ','1']
 
-example : ∃ ts, Sim.SpecRun CharClass.ascii 60 {} {} [exLine1, exLine2, exLine3] ts ∧ ts = [.null, .int 6, .int 10] := by
-  refine ⟨_, .cons _ _ _ _ _ _ _ _ _ _ rfl ?_ rfl rfl rfl
-    (.cons _ _ _ _ _ _ _ _ _ _ rfl ?_ rfl rfl rfl
-      (.cons _ _ _ _ _ _ _ _ _ _ rfl ?_ rfl rfl rfl (.nil _ _))), rfl⟩
+example : ∃ asts rbs stEnd ts, Sim.SpecRun CharClass.ascii 60 {} {} [exLine1, exLine2, exLine3] asts rbs stEnd ts ∧ ts = [.null, .int 6, .int 10] := by
+  refine ⟨_, _, _, _, .cons _ _ _ _ _ _ _ _ _ _ _ _ _ rfl ?_ rfl rfl rfl
+    (.cons _ _ _ _ _ _ _ _ _ _ _ _ _ rfl ?_ rfl rfl rfl
+      (.cons _ _ _ _ _ _ _ _ _ _ _ _ _ rfl ?_ rfl rfl rfl (.nil _ _))), rfl⟩
   all_goals (repeat (first | constructor | rfl | decide))
 
 end C17
